@@ -227,6 +227,20 @@ Definition doc_sound_gen (uf : env -> list party -> list party -> Z -> bool)
                              (match roles with Some _ => owners | None => [] end)) true signers
       else forallb (covered_b e signers) (all_addrs owners) &&
            contract_rule_b e (uf e (addr_parties (all_addrs owners)) []) true signers
+  | ODataAccess rollup owners roles =>
+      (* the scope rules again: the owners do not change *)
+      if rollup then
+        required_covered_b e signers owners &&
+        match roles with Some rs => roles_signed_b e signers owners rs && provenance_rule_b e owners
+                    | None => true end &&
+        contract_rule_b e (uf e owners
+                             (match roles with Some _ => owners | None => [] end)) true signers
+      else forallb (covered_b e signers) (all_addrs owners) &&
+           contract_rule_b e (uf e (addr_parties (all_addrs owners)) []) true signers
+  | OUpdateValueOwners vos proposed =>
+      (* "When a value owner address is a non-marker address, and is being changed, that existing
+         address must be one of the signers" (or have granted to one) *)
+      forallb (fun o => match o with Some a => covered_b e signers a | None => false end) vos
   end.
 
 (** "used" read as "stands for a party" (directly or through that party's grant) ... *)
@@ -290,6 +304,16 @@ Definition doc_direct (e : env) (op : outer) (signers : list Z) : bool :=
         match roles with Some rs => roles_direct_b signers owners rs && provenance_rule_b e owners
                     | None => true end
       else forallb (fun a => mem a signers) (all_addrs owners)
+  | ODataAccess rollup owners roles =>
+      if rollup then
+        required_direct_b signers owners &&
+        match roles with Some rs => roles_direct_b signers owners rs && provenance_rule_b e owners
+                    | None => false end
+      else forallb (fun a => mem a signers) (all_addrs owners)
+  | OUpdateValueOwners vos proposed =>
+      match vos with [] => false | _ :: _ => true end &&
+      forallb (fun o => match o with Some a => negb (Z.eqb a proposed) && mem a signers
+                                | None => false end) vos
   end.
 
 (** *** The documented table again, as data for the [Prop] theorems: whose signature an accepted
@@ -310,6 +334,8 @@ Definition doc_required_addrs (op : outer) : list Z :=
       if rollup then nonopt_addrs owners ++ nonopt_addrs session ++ nonopt_addrs (opt_parties old)
       else all_addrs session ++ all_addrs (opt_parties old)
   | ODeleteRecord rollup owners _ => if rollup then nonopt_addrs owners else all_addrs owners
+  | ODataAccess rollup owners _ => if rollup then nonopt_addrs owners else all_addrs owners
+  | OUpdateValueOwners vos _ => some_addrs vos
   end.
 
 Definition doc_role_pool (op : outer) : option (list party * list Z) :=
@@ -321,5 +347,113 @@ Definition doc_role_pool (op : outer) : option (list party * list Z) :=
   | OWriteSession true _ None proposed roles => Some (proposed, roles)
   | OWriteRecord true _ session _ roles => Some (session, roles)
   | ODeleteRecord true owners (Some roles) => Some (owners, roles)
+  | ODataAccess true owners (Some roles) => Some (owners, roles)
   | _ => None
+  end.
+
+(** Whose signature the smart-contract position rule counts as "a party's": per endpoint the
+    (required, available) party lists in the sense of ValidateSignersWithParties; plain address
+    lists (rollup off) are [addr_parties]; [None]: nobody (no signature is looked at). *)
+Definition doc_parties (op : outer) : option (list party * list party) :=
+  match op with
+  | OWriteScopeNew _ _ _ => None
+  | OWriteScope ex_rollup existing prop_rollup proposed other_changed _ =>
+      if ex_rollup then Some (existing, existing)
+      else if equal_parties existing proposed && Bool.eqb ex_rollup prop_rollup && negb other_changed
+           then None else Some (addr_parties (all_addrs existing), [])
+  | ODeleteScope rollup owners roles =>
+      if rollup then Some (owners, match roles with Some _ => owners | None => [] end)
+      else Some (addr_parties (all_addrs owners), [])
+  | OUpdateOwners rollup existing _ _ =>
+      if rollup then Some (existing, existing) else Some (addr_parties (all_addrs existing), [])
+  | OWriteSession rollup owners existing proposed _ =>
+      if rollup then match existing with
+                     | Some ex => Some (ex ++ owners, ex)
+                     | None => Some (owners, proposed)
+                     end
+      else Some (addr_parties (all_addrs owners), [])
+  | OWriteRecord rollup owners session old _ =>
+      if rollup then Some (owners ++ session ++ opt_parties old, session)
+      else Some (addr_parties (all_addrs session ++ all_addrs (opt_parties old)), [])
+  | ODeleteRecord rollup owners roles =>
+      if rollup then Some (owners, match roles with Some _ => owners | None => [] end)
+      else Some (addr_parties (all_addrs owners), [])
+  | ODataAccess rollup owners roles =>
+      if rollup then Some (owners, match roles with Some _ => owners | None => [] end)
+      else Some (addr_parties (all_addrs owners), [])
+  | OUpdateValueOwners vos _ => Some (addr_parties (some_addrs vos), [])
+  end.
+
+Definition doc_used (uf : list party -> list party -> Z -> Prop) (op : outer) (s : Z) : Prop :=
+  match doc_parties op with
+  | Some (req, avail) => uf req avail s
+  | None => False
+  end.
+
+(** validateSmartContractSigners is called on every endpoint except MsgUpdateValueOwners (there
+    the first signer, when it is a smart contract, silences all the others instead). *)
+Definition enforces_contract_rule (op : outer) : bool :=
+  match op with OUpdateValueOwners _ _ => false | _ => true end.
+
+(** *** [doc_direct] in [Prop]: every party the documented table names signs DIRECTLY and the
+    required roles are present among the directly signing parties (role lists with repeats:
+    injective assignment). *)
+Definition all_sign (signers l : list Z) : Prop := forall a, In a l -> In a signers.
+Definition nonopt_sign (signers : list Z) (ps : list party) : Prop :=
+  forall p, In p ps -> p_opt p = false -> In (p_addr p) signers.
+Definition roles_direct (signers : list Z) (avail : list party) (roles : list Z) : Prop :=
+  role_assignment (fun a => In a signers) avail roles.
+Definition roles_present (avail : list party) (roles : list Z) : Prop :=
+  role_assignment (fun _ => True) avail roles.
+Definition parties_among (ps owners : list party) : Prop :=
+  forall p, In p ps -> In (pkey p) (map pkey owners).
+
+Definition doc_direct_P (e : env) (op : outer) (signers : list Z) : Prop :=
+  match op with
+  | OWriteScopeNew proposed rollup roles =>
+      roles_present proposed roles /\ provenance_rule e proposed
+  | OWriteScope ex_rollup existing prop_rollup proposed other_changed roles =>
+      roles_present proposed roles /\ provenance_rule e proposed /\
+      (if ex_rollup then nonopt_sign signers existing /\ roles_direct signers existing roles
+       else all_sign signers (all_addrs existing))
+  | ODeleteScope rollup owners roles =>
+      if rollup then nonopt_sign signers owners /\
+                     match roles with Some rs => roles_direct signers owners rs | None => True end
+      else all_sign signers (all_addrs owners)
+  | OUpdateOwners rollup existing proposed roles =>
+      roles_present proposed roles /\ provenance_rule e proposed /\
+      (if rollup then nonopt_sign signers existing /\ roles_direct signers existing roles
+       else all_sign signers (all_addrs existing))
+  | OWriteSession rollup owners existing proposed roles =>
+      if rollup then
+        parties_among proposed owners /\ nonopt_sign signers owners /\
+        match existing with
+        | None => roles_direct signers proposed roles /\ provenance_rule e proposed
+        | Some ex => roles_direct signers ex roles /\ roles_present proposed roles /\
+                     nonopt_sign signers ex /\ provenance_rule e proposed /\ provenance_rule e ex
+        end
+      else roles_present proposed roles /\ provenance_rule e proposed /\
+           all_sign signers (all_addrs owners)
+  | OWriteRecord rollup owners session old roles =>
+      if rollup then
+        roles_direct signers session roles /\ nonopt_sign signers owners /\
+        nonopt_sign signers session /\ nonopt_sign signers (opt_parties old) /\
+        provenance_rule e session
+      else roles_present session roles /\ all_sign signers (all_addrs session) /\
+           all_sign signers (all_addrs (opt_parties old))
+  | ODeleteRecord rollup owners roles =>
+      if rollup then
+        nonopt_sign signers owners /\
+        match roles with Some rs => roles_direct signers owners rs /\ provenance_rule e owners
+                    | None => True end
+      else all_sign signers (all_addrs owners)
+  | ODataAccess rollup owners roles =>
+      if rollup then
+        nonopt_sign signers owners /\
+        match roles with Some rs => roles_direct signers owners rs /\ provenance_rule e owners
+                    | None => False end
+      else all_sign signers (all_addrs owners)
+  | OUpdateValueOwners vos proposed =>
+      vos <> [] /\
+      forall o, In o vos -> exists a, o = Some a /\ a <> proposed /\ In a signers
   end.
